@@ -206,6 +206,7 @@ func init() {
 			if ctx.Batch == 0 {
 				c18Flip(ctx, dir)
 				c18Retarget(ctx, dir)
+				c18PathShapes(ctx, dir)
 				c18Config(ctx, dir)
 			}
 		}
@@ -370,6 +371,102 @@ func c18Config(ctx *Ctx, dir string) {
 					}
 					ctx.Nontrivial(fmt.Sprintf("cfg:%s:%d:%d:%o", name, uid, gid, mode))
 				}
+			}
+		}
+	}
+}
+
+// c18PathShapes: the configured path reaches its executable through symlinked directories, link chains, relative link
+// targets, "." and ".." segments. What counts is the file the kernel executes for that path (symlinks are resolved
+// before ".." is applied): it must be the one that is tested. Every arrangement has a decoy with the opposite verdict
+// where a lexical shortcut would look.
+func c18PathShapes(ctx *Ctx, dir string) {
+	marker := filepath.Join(dir, "marker-shapes")
+	n := 0
+	mk := func(p string, good bool) {
+		_ = os.MkdirAll(filepath.Dir(p), 0755)
+		_ = os.Remove(p)
+		tag := "bad"
+		if good {
+			tag = "good"
+		}
+		_ = os.WriteFile(p, []byte("#!/bin/sh\necho "+tag+" >> "+marker+"\necho 7\n"), 0700)
+		if good {
+			_ = os.Chown(p, 0, 0)
+		} else {
+			_ = os.Chown(p, 1000, 1000)
+		}
+		_ = os.Chmod(p, 0o755)
+	}
+	type shape struct {
+		name  string
+		build func(base string, realGood bool) string // returns the configured path
+	}
+	shapes := []shape{
+		{"dotdot-after-symlinked-directory", func(base string, realGood bool) string {
+			// base/scripts -> base/user/scripts ; base/scripts/../run.sh is base/user/run.sh, not base/run.sh
+			mk(filepath.Join(base, "user", "run.sh"), realGood)
+			mk(filepath.Join(base, "run.sh"), !realGood)
+			_ = os.MkdirAll(filepath.Join(base, "user", "scripts"), 0755)
+			_ = os.Symlink(filepath.Join(base, "user", "scripts"), filepath.Join(base, "scripts"))
+			return base + "/scripts/../run.sh"
+		}},
+		{"symlinked-directory", func(base string, realGood bool) string {
+			mk(filepath.Join(base, "real", "run.sh"), realGood)
+			_ = os.Symlink(filepath.Join(base, "real"), filepath.Join(base, "d"))
+			return base + "/d/run.sh"
+		}},
+		{"link-chain", func(base string, realGood bool) string {
+			mk(filepath.Join(base, "file.sh"), realGood)
+			mk(filepath.Join(base, "decoy.sh"), !realGood)
+			_ = os.Symlink(filepath.Join(base, "file.sh"), filepath.Join(base, "l2"))
+			_ = os.Symlink(filepath.Join(base, "l2"), filepath.Join(base, "l1"))
+			return base + "/l1"
+		}},
+		{"relative-link-target", func(base string, realGood bool) string {
+			mk(filepath.Join(base, "sub", "file.sh"), realGood)
+			mk(filepath.Join(base, "file.sh"), !realGood)
+			_ = os.MkdirAll(filepath.Join(base, "links"), 0755)
+			_ = os.Symlink("../sub/file.sh", filepath.Join(base, "links", "run"))
+			return base + "/links/run"
+		}},
+		{"dot-segments", func(base string, realGood bool) string {
+			mk(filepath.Join(base, "sub", "run.sh"), realGood)
+			return base + "/./sub//./run.sh"
+		}},
+		{"dotdot-plain-directories", func(base string, realGood bool) string {
+			mk(filepath.Join(base, "run.sh"), realGood)
+			_ = os.MkdirAll(filepath.Join(base, "a", "b"), 0755)
+			return base + "/a/b/../../run.sh"
+		}},
+	}
+	for _, sh := range shapes {
+		for _, realGood := range []bool{true, false} {
+			for _, via := range []string{"SafeCmdExecution", "CmdSensor", "CmdFan.GetPwm"} {
+				n++
+				base := filepath.Join(dir, fmt.Sprintf("shape-%d", n))
+				_ = os.MkdirAll(base, 0755)
+				path := sh.build(base, realGood)
+				before := readLines(marker)
+				out, cerr, pmsg := c18Invoke(via, path)
+				after := readLines(marker)
+				ctx.Eval(1)
+				ran := ""
+				if len(after) > len(before) {
+					ran = after[len(after)-1]
+				}
+				desc := fmt.Sprintf("%s via %s, path %s, the file the kernel executes is %s: ran %q out %q err %v", sh.name, via, strings.TrimPrefix(path, base), map[bool]string{true: "root-controlled", false: "owned by uid 1000"}[realGood], ran, out, cerr)
+				switch {
+				case pmsg != "":
+					ctx.Violation("path-shape:panic:"+sh.name, desc+" "+firstLine(pmsg), desc)
+				case ran == "bad":
+					ctx.Violation("path-shape:executed-although-not-permitted:"+sh.name, desc, desc)
+				case !realGood && cerr == nil:
+					ctx.Violation("path-shape:not-permitted-but-no-error:"+sh.name, desc, desc)
+				case realGood && (ran != "good" || cerr != nil):
+					ctx.Violation("path-shape:permitted-executable-not-run:"+sh.name, desc, desc)
+				}
+				ctx.Nontrivial(fmt.Sprintf("shape:%s:%v:%s", sh.name, realGood, via))
 			}
 		}
 	}
